@@ -24,6 +24,16 @@ class Prog:
         self.traits = self.d["traits"]
         self._cfg = {}
         self._cg = None
+        # switch values are raw bits: reinterpret them for signed discriminant types
+        for f in self.fns.values():
+            for body in ([f["mir"]] if "mir" in f else []) + f.get("promoted", []):
+                for b in body["blocks"]:
+                    t = b["t"]
+                    if t["k"] == "switch":
+                        ty = self.tys[t["dty"]]
+                        if ty.get("k") == "int":
+                            bits = ty["bits"]
+                            t["targets"] = [[v - (1 << bits) if v >= (1 << (bits - 1)) else v, bb] for v, bb in t["targets"]]
         # trait method path -> list of in-crate impl fn paths
         self.impl_of_trait_item = defaultdict(list)
         for name, f in self.fns.items():
